@@ -363,6 +363,43 @@ example : isOK (find (exSrv .dnscrypt) (exDB false false) (exReq none "" "")) = 
 
 end Examples
 
+/-! ## The label of a TLS server name (fixed defect)
+
+Before the fix `deviceDataFromCliSrvName` matched the device domain against the *lowercased* name but
+cut the label from the original name with byte lengths.  Lowercasing changes the UTF-8 length of some
+characters (U+212A KELVIN SIGN, three bytes, lowers to `k`), so the cut could fall one or more bytes
+late and another identifier was looked up.  The fixed code takes the text before the first dot
+(`sniLabel`); `immediate_label` shows that this is exactly the label in front of the matched domain. -/
+
+/-- UTF-8 length of a character list. -/
+def byteLen (s : Str) : Nat := (s.map Char.utf8Size).sum
+/-- Go's `s[:n]` for `n` on a character boundary. -/
+def takeBytes : Nat → Str → Str
+  | _, [] => []
+  | n, c :: r => if c.utf8Size ≤ n then c :: takeBytes (n - c.utf8Size) r else []
+/-- `strings.ToLower` on ASCII plus the KELVIN SIGN. -/
+def lowerK (s : Str) : Str := s.map fun c => if c = '\u212a' then 'k' else c.toLower
+/-- The label as the code computed it before the fix. -/
+def sniLabelOrig (sni dom : Str) : Str := takeBytes (byteLen sni - byteLen dom - 1) sni
+
+/-- Pre-fix behaviour: under the device domain `doh.ki.example`, the name `otr-prof1-tv.doh.\u212ai.example`
+is matched, and the label cut by byte lengths is `otr-prof1-tv.d` (human ID `tv.d`, normalised `tv-d`),
+not the `otr-prof1-tv` the request carries.  Replayed on the real code by the harness (signature
+`recognised-without-own-identifier`, device `hum3` with human ID `tv-d`). -/
+theorem sni_orig_counterexample :
+    isImmediateSubdomain (lowerK "otr-prof1-tv.doh.\u212ai.example".toList) "doh.ki.example".toList = true ∧
+    sniLabelOrig "otr-prof1-tv.doh.\u212ai.example".toList "doh.ki.example".toList = "otr-prof1-tv.d".toList ∧
+    sniLabel "otr-prof1-tv.doh.\u212ai.example".toList = "otr-prof1-tv".toList := by decide
+
+/-- The fixed code: whenever a device domain matches, the label is the text in front of the domain's
+dot, contains no dot, and is a prefix of the name as sent — for every name and domain. -/
+theorem sni_label_is_first_label {sni dom : Str} (h : isImmediateSubdomain (lower sni) dom = true) :
+    lower sni = lower (sniLabel sni) ++ '.' :: dom ∧ '.' ∉ lower (sniLabel sni) ∧ sniLabel sni <+: sni :=
+  ⟨(immediate_label h).1, (immediate_label h).2, sniLabel_prefix sni⟩
+
+example : isImmediateSubdomain (lower "Dev1.d.example".toList) "d.example".toList = true ∧
+    sniLabel "Dev1.d.example".toList = "Dev1".toList := by decide
+
 end Agd.Device
 
 #print axioms Agd.Device.recognised_only_own_id
@@ -380,3 +417,5 @@ end Agd.Device
 #print axioms Agd.Device.http_userinfo_has_password
 #print axioms Agd.Device.http_bad_password_is_anonymous
 #print axioms Agd.Device.http_doh_only_needs_basic_auth
+#print axioms Agd.Device.sni_orig_counterexample
+#print axioms Agd.Device.sni_label_is_first_label
